@@ -524,6 +524,7 @@ class Goebner:
                 return None
             factor1, factor2 = factors
 
+            saved = (relations[first], relations[second])
             # keep common factors in the middle, move uncommon ones to the left if possible
             for both in common:
                 if linear1[both] * factor1 != linear2[both] * factor2:
@@ -540,6 +541,10 @@ class Goebner:
                         relations[second][2] - (both * linear2[both]),
                     )
 
+            # the two relations can only share the middle of one two-sided guard if their middles are the same term
+            if (relations[first][2] * factor1 - relations[second][2] * factor2).expand() != 0:
+                relations[first], relations[second] = saved
+                return None
             lhs = relations[first][0] * factor1
             opl = relations[first][1] if factor1 > 0 else rhs2lhs_comparison(relations[first][1])
             mid = relations[first][2] * factor1
